@@ -57,6 +57,10 @@ pub fn option_sets(all: bool) -> Vec<(String, SerializerOptions)> {
             v.push((format!("m{m}"), o));
         }
     }
+    // indentation steps other than 2 and 4
+    for (name, step, compact) in [("i1", 1usize, false), ("i3", 3, false), ("i3c", 3, true), ("i1c", 1, true)] {
+        v.push((name.to_string(), SerializerOptions { indent_step: step, compact_list_indent: compact, ..d }));
+    }
     v
 }
 
@@ -219,6 +223,39 @@ pub fn run(args: &Args) -> i32 {
             // small trees: every option set; larger enumerations: default + one rotating set
             let oi = if cases.len() > 2000 { Some(i) } else { None };
             handle(format!("c{i}"), &c.tree, oi, &mut w, &mut stats, &mut rng);
+        }
+    }
+    // block-scalar material (strings that are written as literal / folded blocks, with or without the explicit wrappers) in
+    // every kind of parent position, under every option set
+    {
+        let words = |n: usize| (0..n).map(|i| ["alpha", "be", "gamma", "d", "epsilon"][i % 5]).collect::<Vec<_>>().join(" ");
+        let texts: Vec<String> = vec!["line one\nline two".into(), " lead\nsecond".into(), "  two\n  both".into(), "tail\n".into(), format!("{}\n{}", words(20), words(22)),
+                                      format!(" {}", words(30)), "x".into(), "   \nabc".into(), " \n".into()];
+        let kinds: Vec<&str> = if decor { vec!["Lit", "Fold"] } else { vec!["S"] };
+        let mut k = 0;
+        for t in &texts {
+            for kind in &kinds {
+                // an explicit folded wrapper folds inner line breaks (recorded finding): keep its family to one-line texts
+                if *kind == "Fold" && t.trim_end_matches('\n').contains('\n') { continue; }
+                let leaf = || SValue::leaf(kind, t);
+                let st = |a: SValue| SValue::new("Struct", "", vec![a, SValue::leaf("I", "1")]);
+                let trees = vec![
+                    leaf(),
+                    SValue::new("Seq", "", vec![leaf(), leaf()]),
+                    st(leaf()),
+                    SValue::new("Seq", "", vec![st(leaf()), st(leaf())]),
+                    SValue::new("Map", "", vec![SValue::leaf("S", "k"), SValue::new("Seq", "", vec![st(leaf())])]),
+                    SValue::new("NV", "", vec![leaf()]),
+                    SValue::new("SV", "", vec![leaf()]),
+                    SValue::new("Map", "", vec![SValue::leaf("S", "k"), SValue::new("NV", "", vec![leaf()])]),
+                    SValue::new("Seq", "", vec![SValue::new("Seq", "", vec![leaf()]), SValue::new("NV", "", vec![st(leaf())])]),
+                    SValue::new("Some", "", vec![st(SValue::new("Some", "", vec![leaf()]))]),
+                ];
+                for tr in trees {
+                    handle(format!("b{k}"), &tr, None, &mut w, &mut stats, &mut rng);
+                    k += 1;
+                }
+            }
         }
     }
     let nrand = args.num("random", 0);
